@@ -28,6 +28,7 @@ type OracleC11 struct {
 	redeliv bool
 	orgSeen []seenEnt
 	orgBI   uint32
+	cvPre   []int // organic ChangeView delivery: requested view per validator before the call (-1: none)
 }
 
 var probeMask = fpMask{LastSeen: false, Cache: true, Timer: true, Timing: true}
@@ -41,9 +42,19 @@ func (o *OracleC11) Name() string { return "C11" }
 
 func (o *OracleC11) BeforeCall(n *Node, st *Step) {
 	o.orgSeen = nil
+	o.cvPre = nil
 	if st.Op == OpReceive && n.d != nil && !st.Probe && n.judged() {
 		o.orgSeen = snapSeen(n)
 		o.orgBI = n.d.BlockIndex
+		if st.P != nil && st.P.T == dbft.ChangeViewType && st.P.H == n.d.BlockIndex && !n.d.BlockSent() {
+			o.cvPre = make([]int, len(n.d.ChangeViewPayloads))
+			for i, m := range n.d.ChangeViewPayloads {
+				o.cvPre[i] = -1
+				if m != nil && m.GetChangeView() != nil {
+					o.cvPre[i] = int(m.GetChangeView().NewViewNumber())
+				}
+			}
+		}
 	}
 }
 
@@ -82,6 +93,49 @@ func (o *OracleC11) AfterCall(n *Node, st *Step) {
 		if i, bad := rewound(o.orgSeen, snapSeen(n), n.d.MyIndex); bad {
 			o.s.Violate("C11", "last_seen_moved_backwards", fmt.Sprintf("%s at height %d view %d: %s moved the last-seen entry of validator %d backwards (%v -> %v)", n, n.d.BlockIndex, n.d.ViewNumber, st.describe(), i, o.orgSeen[i], snapSeen(n)[i]), n.id)
 			return
+		}
+	}
+	// A change-view request that the node takes in and that completes a quorum takes the node
+	// to the HIGHEST view the requests it holds support (a request for view w supports every
+	// view up to w).  Stopping lower leaves it holding - in its previous-view table - requests
+	// whose redelivery would move it again, which the redelivery clause excludes.
+	if o.cvPre != nil && n.d != nil && st.Panic == nil && st.PostBI == st.PreBI && !n.d.BlockSent() {
+		p := st.P
+		idx := int(p.Idx)
+		cv, _ := p.Body.(*ChView)
+		admitted := false
+		if cv != nil && idx < len(o.cvPre) && idx < len(n.d.ChangeViewPayloads) {
+			for _, tab := range [][]dbft.ConsensusPayload[Hash]{n.d.ChangeViewPayloads, n.d.LastChangeViewPayloads} {
+				if idx < len(tab) && tab[idx] != nil && tab[idx].Hash() == p.Hash() {
+					admitted = true
+				}
+			}
+		}
+		if admitted {
+			tab := append([]int(nil), o.cvPre...)
+			if int(cv.NewView) > tab[idx] {
+				tab[idx] = int(cv.NewView)
+			}
+			best := -1
+			for v := 255; v > int(st.PreV); v-- {
+				c := 0
+				for _, w := range tab {
+					if w >= v {
+						c++
+					}
+				}
+				if c >= n.d.M() {
+					best = v
+					break
+				}
+			}
+			if best > int(st.PostV) {
+				o.s.Violate("C11", "change_view_quorum_not_followed_to_its_view", fmt.Sprintf("%s at height %d: after %s it holds change-view requests for view %d or above from M=%d validators (requested views %v) but it is in view %d", n, st.PreBI, st.describe(), best, n.d.M(), tab, st.PostV), n.id)
+				return
+			}
+			if best > int(st.PreV)+1 {
+				o.s.note("change_view_quorum_two_or_more_views_ahead")
+			}
 		}
 	}
 	if st.Panic != nil {
